@@ -226,7 +226,7 @@ def r8(orig, rule):
     body2 = re.sub(r'\* %s\b' % v, '%s [ __i ]' % a, body)
     if re.search(r'\b%s\b' % v, body2):
         raise NoMatch('loop variable used other than through *%s' % v)
-    return 'for __i in 0..%s.len() { %s }' % (a, body2)
+    return 'let __n = %s.len(); for __i in 0..__n { %s }' % (a, body2)
 
 
 def r18(orig, rule):
@@ -284,7 +284,32 @@ def r13(orig, rule):
     raise NoMatch('no float one-liner')
 
 
+def r9f(orig, rule):
+    # for X in E {   (E any iterator expression; definition of `for`)  ->  let mut __it = E; loop { match __it.next() { Some(X) => {
+    s = norm(orig)
+    m = _m(r'for (.+?) in (.+) \{', s)
+    pat, e = m.groups()
+    return 'let mut __it = %s; loop { match __it.next() { Some(%s) => {' % (e, pat)
+
+
+def r17b(orig, rule):
+    # f(&mut V, ...)  with V: Vec<T> coerced to &mut [T]  ->  f(V.as_mut_slice(), ...)
+    s = norm(orig)
+    m = re.search(r'& mut (%s)(?= ,| \))' % ID, s)
+    if not m:
+        raise NoMatch('no &mut V argument')
+    return s[:m.start()] + m.group(1) + '.as_mut_slice()' + s[m.end():]
+
+
+def r21(orig, rule):
+    # tail expression E of a function body  ->  let NAME = E; NAME        (names the result so that a proof block can follow its construction)
+    name = rule.split()[1]
+    return 'let %s = %s; %s' % (name, norm(orig), name)
+
+
 GENERATORS = {
+    'R21': r21,
+    'R9f': r9f, 'R17b': r17b,
     'R13': r13,
     'R19': r19,
     'R12': r12, 'R16': r16,
